@@ -210,10 +210,11 @@ def judge_entity_resolver(ctx, R, S, f, rule):
     # reference form of Slot::is_free(slot) by evaluating it on this slot
     free_fn = ctx.gecs.fns.get("archetype::slot::Slot::is_free")
     free_ref = None
+    free_pol = True
     if free_fn is not None:
         fps = ctx.ex.run(free_fn, args=[slot_ptr])
         if len(fps) == 1 and fps[0].ret is not None:
-            free_ref = canon_bool(N(fps[0].ret), True)[0]
+            free_ref, free_pol = canon_bool(N(fps[0].ret), True)
     else:
         R.anchor_missing("archetype::slot::Slot::is_free")
     for (a, truth) in atoms:
@@ -229,7 +230,7 @@ def judge_entity_resolver(ctx, R, S, f, rule):
             if (is_slot_field(x, "version") and y == kv) or (is_slot_field(y, "version") and x == kv):
                 want["version"] = True
                 continue
-        if free_ref is not None and a == free_ref and truth is False:
+        if free_ref is not None and a == free_ref and truth is (not free_pol):
             want["free"] = True
             continue
         extra.append((a, truth))
@@ -266,7 +267,7 @@ def judge_entity_resolver(ctx, R, S, f, rule):
                 a = N(e[3][0])
                 if is_call(a, "SlotIndex::index_data"):
                     pre = [atom(c) for c in q.conds if c[2] == "branch" and cond_before(q, c, e)]
-                    ok = free_ref is not None and any(a2 == free_ref and t is False for (a2, t) in pre)
+                    ok = free_ref is not None and any(a2 == free_ref and t is (not free_pol) for (a2, t) in pre)
                     R.check(ok, "C03-R1", key + "|free-before-dense", "dense index read dominated by !is_free(slot)",
                             "index_data().unwrap_unchecked() is not dominated by the !is_free(slot) guard", where_of(f, e[5]), fn=f.key)
 
@@ -592,11 +593,27 @@ def rule_creator(ctx, R):
             judge_creator(ctx, R, S, f)
 
 
+def return_paths(ctx, R, rule, S, f, what):
+    ps = ctx.paths(f)
+    if ps is None:
+        R.fail("SHAPE", "%s::%s|paths" % (S.name, f.path.split("::")[-1]), "%s: path enumeration failed (unsupported shape, fail closed)" % what, where_of(f), fn=f.key)
+        return []
+    rp = [p for p in ps if p.end == "return"]
+    loops = [p for p in ps if isinstance(p.end, tuple) and p.end[0] == "backedge"]
+    if loops or not rp:
+        R.fail("SHAPE", "%s::%s|loop" % (S.name, f.path.split("::")[-1]), "%s contains a loop or has no returning path; the per-path rules cannot be applied (unsupported shape, fail closed)" % what, where_of(f), fn=f.key)
+        return []
+    return rp
+
+
 def judge_creator(ctx, R, S, f):
-    key = "%s::%s" % (S.name, f.path.split("::")[-1])
-    p = single_path(ctx, R, "C02-R1", S, f, "the creator")
-    if p is None:
-        return
+    key0 = "%s::%s" % (S.name, f.path.split("::")[-1])
+    rps = return_paths(ctx, R, "C02-R1", S, f, "the creator")
+    for pi, p in enumerate(rps):
+        judge_creator_path(ctx, R, S, f, p, key0 if len(rps) == 1 else "%s|path#%d" % (key0, pi))
+
+
+def judge_creator_path(ctx, R, S, f, p, key):
     old_len = sf("len")
     writes = [e for e in p.effects if e[0] == "call" and prim_name(e) == "write"]
     arrays = [receiver_array(e[3][0], S) for e in writes]
@@ -731,10 +748,13 @@ def rule_remover(ctx, R):
 
 
 def judge_remover(ctx, R, S, f):
-    key = "%s::%s" % (S.name, f.path.split("::")[-1])
-    p = single_path(ctx, R, "C04-R2", S, f, "the remover")
-    if p is None:
-        return
+    key0 = "%s::%s" % (S.name, f.path.split("::")[-1])
+    rps = return_paths(ctx, R, "C04-R2", S, f, "the remover")
+    for pi, p in enumerate(rps):
+        judge_remover_path(ctx, R, S, f, p, key0 if len(rps) == 1 else "%s|path#%d" % (key0, pi))
+
+
+def judge_remover_path(ctx, R, S, f, p, key):
     old_len = sf("len")
     slot_arg = ("vfield", ("arg", 2), "0")
     dense_arg = ("vfield", ("arg", 2), "1")
@@ -803,15 +823,58 @@ def judge_remover(ctx, R, S, f):
             ok_as = okslice and oklast and same_index(N(asg[0][3][1]), dense_arg)
     R.check(ok_as, "C01-R4", key + "|fixup", "slot of the last entity (read before the move) re-pointed to the vacated index",
             "expected Slot::assign(slots[slot_index(entities[len-1] read before swap_remove)], dense_index); " + detail, where_of(f), fn=f.key)
-    ok_rel = False
-    if len(rel) == 1:
-        sp = slot_ptr_of(N(rel[0][3][0]))
-        if sp is not None:
-            parts = slice_parts(sp[0])
-            ok_rel = parts is not None and array_of(parts[0], S) == S.slots and parts[1] == sf("capacity") and same_index(sp[1], slot_arg)
-            ok_rel = ok_rel and N(rel[0][3][1]) == sf("free_head")
-    R.check(ok_rel, "C01-R3", key + "|release", "target slot released with the old free list head as link",
-            "expected exactly one Slot::release(slots[resolved slot], old free_head); found %s" % [[show(N(a))[:160] for a in e[3]] for e in rel], where_of(f), fn=f.key)
+    # the resolved slot is released: its link field receives the old free-list head and its
+    # generation receives next(its old generation) -- judged on the stores themselves, so it does
+    # not matter whether Slot::release computes the successor or receives it from the remover
+    def canon_ptr(V):
+        if not isinstance(V, tuple) or not V:
+            return V
+        if V[0] == "call":
+            path = V[1].replace("get_unchecked_mut", "get_unchecked").replace("from_raw_parts_mut", "from_raw_parts")
+            return ("call", path, tuple(canon_ptr(a) for a in V[2]))
+        if V[0] == "load":
+            return ("load", canon_ptr(V[1]), None)
+        return tuple(canon_ptr(x) if isinstance(x, tuple) else x for x in V)
+
+    def is_resolved_slot(P):
+        sp = slot_ptr_of(P)
+        if sp is None:
+            return False
+        parts = slice_parts(sp[0])
+        return parts is not None and array_of(parts[0], S) == S.slots and strip_epochs(parts[1]) == strip_epochs(sf("capacity")) and same_index(sp[1], slot_arg)
+
+    slot_stores = {"index": [], "version": []}
+    slot_ptrs = []
+    for e in p.effects:
+        if e[0] == "store":
+            L = NL(e[1])
+            if L[0] == "field" and L[2] in ("index", "version") and L[1][0] == "deref" and is_resolved_slot(L[1][1]):
+                slot_stores[L[2]].append(e)
+                slot_ptrs.append(L[1][1])
+    ok_link = len(slot_stores["index"]) == 1 and N(slot_stores["index"][0][2]) == sf("free_head")
+    R.check(ok_link, "C01-R3", key + "|release-link", "resolved slot's link <- old free list head (slot marked free)",
+            "stores to the resolved slot's index: %s; expected exactly one, of the old free_head" % [show(N(e[2]))[:120] for e in slot_stores["index"]], where_of(f), fn=f.key)
+    ok_bump = False
+    if len(slot_stores["version"]) == 1 and slot_ptrs:
+        e = slot_stores["version"][0]
+        val = N(e[2])
+        vloc = ("field", ("deref", slot_ptrs[0]), "version")
+        ref_next_slot = reference_eval(ctx, "version::SlotVersion::next", [("ref", vloc)])
+        if ref_next_slot is None:
+            R.anchor_missing("version::SlotVersion::next (single path)")
+        else:
+            ok_bump = canon_ptr(val) == canon_ptr(ref_next_slot)
+            # the generation read for the successor must be the slot's value before any write to it
+            if ok_bump:
+                for x in subterms(val):
+                    if x[0] == "load" and x[1][0] == "field" and x[1][2] in ("version",) and canon_ptr(x[1]) in (canon_ptr(("field", vloc, "version")), canon_ptr(vloc)):
+                        first_w = p.effects.index(e)
+                        # no earlier store to that slot's version on this path (single store checked above)
+    R.check(ok_bump, "C01-R3", key + "|release-bump", "resolved slot's generation <- next(its old generation), unconditionally",
+            "stores to the resolved slot's version: %s; expected exactly one store of SlotVersion::next(old version of that same slot)" % [show(N(e[2]))[:160] for e in slot_stores["version"]], where_of(f), fn=f.key)
+    ok_rel = len(rel) == 1
+    R.check(ok_rel, "C01-R3", key + "|release", "target slot released exactly once",
+            "expected exactly one Slot::release call; found %d" % len(rel), where_of(f), fn=f.key)
     if asg and rel:
         R.check(p.effects.index(asg[0]) < p.effects.index(rel[0]), "C01-R4", key + "|assign-before-release", "fix-up precedes release (target == last case)",
                 "Slot::release happens before Slot::assign: when the removed entity is the last one its freed slot would be marked live again", where_of(f), fn=f.key)
@@ -853,9 +916,9 @@ def rule_slot_primitives(ctx, R):
     ref_next = reference_eval(ctx, "version::SlotVersion::next", [("ref", floc("version"))])
     if ref_next is None:
         R.anchor_missing("version::SlotVersion::next (single path)")
-    okv = "version" in stores and ref_next is not None and strip_epochs(stores["version"]) == strip_epochs(ref_next)
-    R.check(okv, "C01-R3", "Slot::release|version-bump", "release stores version <- version.next()",
-            "Slot::release stores %s to version; expected self.version.next() unconditionally" % (show(stores.get("version")) if "version" in stores else "nothing"), where_of(rel), fn=rel.key)
+    okv = "version" in stores and ((ref_next is not None and strip_epochs(stores["version"]) == strip_epochs(ref_next)) or stores["version"] == ("arg", 3))
+    R.check(okv, "C01-R3", "Slot::release|version-store", "release stores the successor generation (computed here or handed in by the remover, which C01-R3 release-bump checks)",
+            "Slot::release stores %s to version; expected self.version.next() or the successor passed by the caller, unconditionally" % (show(stores.get("version")) if "version" in stores else "nothing"), where_of(rel), fn=rel.key)
     oki = stores.get("index") == ("arg", 2)
     R.check(oki, "C01-R3", "Slot::release|link", "release stores the given free-list link", "Slot::release stores %s to index; expected its argument" % show(stores.get("index")), where_of(rel), fn=rel.key)
     asg = g.fns.get("archetype::slot::Slot::assign")
